@@ -194,6 +194,62 @@ def _convert_returns(stmts, make, allow_none):
     return allow_none
 
 
+def _const_truth(e):
+    """truth value of a test made of literals only (after an argument of a merged function was bound to a literal), else None"""
+    if isinstance(e, ast.Constant):
+        return bool(e.value)
+    if isinstance(e, ast.UnaryOp) and isinstance(e.op, ast.Not):
+        v = _const_truth(e.operand)
+        return None if v is None else not v
+    if isinstance(e, ast.BoolOp):
+        vals = [_const_truth(v) for v in e.values]
+        if isinstance(e.op, ast.And):
+            return False if any(v is False for v in vals) else (True if all(v is True for v in vals) else None)
+        return True if any(v is True for v in vals) else (False if all(v is False for v in vals) else None)
+    if isinstance(e, ast.Compare) and len(e.ops) == 1 and isinstance(e.left, ast.Constant) and isinstance(e.comparators[0], ast.Constant):
+        a, b = e.left.value, e.comparators[0].value
+        op = e.ops[0]
+        if isinstance(op, ast.Is):
+            return a is b if (a is None or b is None or isinstance(a, bool) or isinstance(b, bool)) else None
+        if isinstance(op, ast.IsNot):
+            return a is not b if (a is None or b is None or isinstance(a, bool) or isinstance(b, bool)) else None
+        if isinstance(op, ast.Eq):
+            return a == b
+        if isinstance(op, ast.NotEq):
+            return a != b
+    return None
+
+
+class _Fold(ast.NodeTransformer):
+    """branches decided by literals are replaced by the branch taken: `f(x, inverse=False)` written back in place is the body of
+    f with the `if inverse:` branches resolved"""
+
+    def visit_If(self, node):
+        self.generic_visit(node)
+        v = _const_truth(node.test)
+        if v is None:
+            return node
+        taken = node.body if v else node.orelse
+        return taken if taken else None
+
+    def visit_IfExp(self, node):
+        self.generic_visit(node)
+        v = _const_truth(node.test)
+        if v is None:
+            return node
+        return node.body if v else node.orelse
+
+
+def _fold_constants(stmts):
+    out = []
+    for s_ in stmts:
+        r = _Fold().visit(s_)
+        if r is None:
+            continue
+        out += r if isinstance(r, list) else [r]
+    return out
+
+
 def flat_view(chk, rel, cls, meth):
     """private copy of `cls.meth` with the calls of helper methods (methods the reference tree does not have) expanded"""
     cache = chk.__dict__.setdefault("_c14_views", {})
@@ -365,6 +421,8 @@ def _flatten(chk, rel, fn0, cls):
         if set(rename.values()) & (stored - set(rename)):
             return False
         body = [_Sub(rename, subst).visit(s) for s in body]
+        if any(isinstance(v_, ast.Constant) for v_ in subst.values()):
+            body = _fold_constants(body)
         # how the value is used
         blk, k = _block_of(st)
         if blk is None:
@@ -425,7 +483,36 @@ def _flatten(chk, rel, fn0, cls):
                 if blk is not None and len(blk) > 1:
                     del blk[k]
         _relink(fn, parent(fn0))
+    _propagate_flags(fn)
+    _relink(fn, parent(fn0))
     return fn
+
+
+def _propagate_flags(fn):
+    """`flag = True / False / None` set once at the top of a function (the bound argument of a merged sibling written back in place)
+    and tested by `if flag:` / `x if flag else y`: the flag is replaced by its value and the decided branches are resolved"""
+    stores = {}
+    for n in ast.walk(fn):
+        if isinstance(n, ast.Name) and isinstance(n.ctx, (ast.Store, ast.Del)):
+            stores[n.id] = stores.get(n.id, 0) + 1
+    params = set(_params(fn))
+    flags = {}
+    for st in fn.body:
+        if isinstance(st, ast.Assign) and len(st.targets) == 1 and isinstance(st.targets[0], ast.Name) and isinstance(st.value, ast.Constant) \
+                and (st.value.value is None or isinstance(st.value.value, bool)) and stores.get(st.targets[0].id) == 1 \
+                and st.targets[0].id not in params:
+            flags[st.targets[0].id] = st
+    if not flags:
+        return
+    tested = {x.id for n in ast.walk(fn) if isinstance(n, (ast.If, ast.IfExp)) for x in ast.walk(n.test) if isinstance(x, ast.Name)}
+    flags = {k: v for k, v in flags.items() if k in tested}
+    if not flags:
+        return
+    subst = {k: v.value for k, v in flags.items()}
+    body = [s_ for s_ in fn.body if not any(s_ is f_ for f_ in flags.values())]
+    body = [_Sub({}, subst).visit(s_) for s_ in body]
+    fn.body = _fold_constants(body) or [ast.Pass()]
+    ast.fix_missing_locations(fn)
 
 
 class Env:
@@ -455,6 +542,10 @@ class Env:
                     not any(isinstance(e, ast.Starred) for e in list(t.elts) + list(value.elts)) and all(isinstance(e, ast.Name) for e in t.elts) \
                     and not ({e.id for e in t.elts} & {n.id for n in ast.walk(value) if isinstance(n, ast.Name)}):
                 vals = value.elts
+            if vals is None and value is not None and _is_view(value) and all(isinstance(e, ast.Name) for e in t.elts) and \
+                    not ({e.id for e in t.elts} & {n.id for n in ast.walk(value) if isinstance(n, ast.Name)}):
+                # `a, b = table[k]`: the names denote the elements of the stored tuple
+                vals = [ast.Subscript(value=_clone(value), slice=ast.Constant(value=k), ctx=ast.Load()) for k in range(len(t.elts))]
             for k, e in enumerate(t.elts):
                 self._target(e, st, vals[k] if vals is not None else None)
         elif isinstance(t, ast.Starred):
@@ -892,6 +983,38 @@ def _matrix_source(v):
     return None
 
 
+def _band_of_matrix(c):
+    """sparse.diags([np.diagonal(M, k) for k in R], R, ...) -> (M, R): the diagonals R of a dense matrix M of entries, put back on
+    the offsets they were taken from; None for any other first argument"""
+    lc = c.args[0] if c.args else None
+    while isinstance(lc, ast.Call) and src(lc.func) in ("list", "tuple") and len(lc.args) == 1:
+        lc = lc.args[0]
+    if not (isinstance(lc, (ast.ListComp, ast.GeneratorExp)) and len(lc.generators) == 1 and not lc.generators[0].ifs
+            and isinstance(lc.generators[0].target, ast.Name)):
+        return None
+    k = lc.generators[0].target.id
+    e = lc.elt
+    for _ in range(3):          # copies / conversions of the extracted diagonal
+        if isinstance(e, ast.Call) and isinstance(e.func, ast.Attribute) and e.func.attr in ("copy", "astype") and not isinstance(e.func.value, ast.Name):
+            e = e.func.value
+        elif isinstance(e, ast.Call) and src(e.func) in ("np.array", "np.asarray", "np.copy", "np.ascontiguousarray", "numpy.array",
+                                                         "numpy.asarray", "numpy.copy") and len(e.args) == 1:
+            e = e.args[0]
+        else:
+            break
+    M = None
+    if isinstance(e, ast.Call) and src(e.func) in ("np.diagonal", "numpy.diagonal", "np.diag", "numpy.diag") and len(e.args) == 2 \
+            and not e.keywords and isinstance(e.args[0], ast.Name) and src(e.args[1]) == k:
+        M = e.args[0].id
+    elif isinstance(e, ast.Call) and isinstance(e.func, ast.Attribute) and e.func.attr == "diagonal" and isinstance(e.func.value, ast.Name) \
+            and len(e.args) == 1 and not e.keywords and src(e.args[0]) == k:
+        M = e.func.value.id
+    off = c.args[1] if len(c.args) > 1 else next((kw.value for kw in c.keywords if kw.arg == "offsets"), None)
+    if M is None or off is None or src(off) != src(lc.generators[0].iter):
+        return None
+    return M, off
+
+
 def containers(fn, env):
     """how each assembled block gets its entries: {block: (scheme, container name, assignment)} with scheme 'diags' (a list of
     diagonals handed to sparse.diags) or 'matrix' (a matrix written at [row, column] and converted)"""
@@ -902,6 +1025,11 @@ def containers(fn, env):
             c = _diags_call(v)
             if c is not None and c.args and isinstance(c.args[0], ast.Name):
                 out[src(n.targets[0])] = ("diags", c.args[0].id, n)
+                continue
+            band = _band_of_matrix(c) if c is not None else None
+            if band is not None:
+                # sparse.diags([np.diagonal(M, k) for k in offsets], offsets): the band of a matrix M written at [row, column]
+                out[src(n.targets[0])] = ("matrix", band[0], n, band[1])
                 continue
             m = _matrix_source(v)
             if m is not None:
@@ -1338,6 +1466,21 @@ def assembly(chk):
         if not (isinstance(n, ast.Assign) and src(n.targets[0]) in BLOCKS):
             continue
         if conts.get(src(n.targets[0]), ("", "", None))[0] == "matrix" and conts[src(n.targets[0])][2] is n:
+            ct = conts[src(n.targets[0])]
+            if len(ct) > 3:
+                # the band of the matrix of entries: the offsets kept must be -degree .. degree, where the assembly writes
+                off = ct[3]
+                okb, badb = None, None
+                if isinstance(off, ast.Call) and src(off.func) == "range" and len(off.args) == 2 and not off.keywords:
+                    lo_, hi_ = arith_equal(off.args[0], f"-{DEG}"), arith_equal(off.args[1], f"{DEG} + 1")
+                    okb = bool(lo_ and hi_) or None
+                    if lo_ is False or hi_ is False:
+                        badb = (f"the diagonals `{src(off)[:50]}` of the matrix of entries are kept; the assembly writes the diagonals "
+                                "-degree .. degree: entries are dropped from the block / diagonals that do not exist are requested")
+                chk.pat("F4-operator", n, f"{src(n.targets[0])} = sparse.diags(diagonals of <matrix of entries>, range(-d, d+1))", okb,
+                        "the block is the band -degree .. degree of the matrix whose entries were written at their (row, column) positions: "
+                        "every diagonal is put back on the offset it was taken from", badb, file=U.POISSON, func=q)
+                continue
             chk.ob("F4-operator", n, f"{src(n.targets[0])} = <matrix of entries>.tocsc()", True,
                    "the block is the matrix whose entries were written at their (row, column) positions, converted to a sliceable format",
                    file=U.POISSON, func=q)
@@ -1374,6 +1517,7 @@ class ModeTables:
         self.fn = fn = flat_view(chk, U.POISSON, CLS, "__init__")
         self.env = env = env_of(chk, fn)
         self.hist = {}
+        self.root_base, self.root_power = None, 1
         stmts = sorted((n for n in ast.walk(fn) if isinstance(n, ast.stmt) and id(n) in env.order), key=lambda n: env.order[id(n)])
         elementwise = {}
         for st in stmts:
@@ -1414,7 +1558,9 @@ class ModeTables:
                             pw = self.power(v, o)
                             self._rec(T, o, None if nested else pw, st)
                         elif T == self.ROOT and T not in self.hist:
-                            self._rec(T, o, None if nested else 1, st)
+                            # the table may be created already raised to a power: fftfreq(...) ** 2 holds m^2 from the start
+                            self.root_base, self.root_power = strip_power(v)
+                            self._rec(T, o, None if nested else self.root_power, st)
                         elif T in self.hist:
                             self._rec(T, o, None, st)
                     elif isinstance(t, ast.Subscript) and src(t.value) in self.hist:
@@ -1516,6 +1662,29 @@ class ModeTables:
         return None
 
 
+def strip_power(e):
+    """(base, p): the expression is base ** p elementwise (`x ** k`, np.square(x), np.power(x, k), x * x); p = 1 when it is not a power"""
+    p = 1
+    for _ in range(6):
+        if isinstance(e, ast.BinOp) and isinstance(e.op, ast.Pow) and isinstance(e.right, ast.Constant) and isinstance(e.right.value, int) \
+                and not isinstance(e.right.value, bool) and e.right.value > 0:
+            p, e = p * e.right.value, e.left
+        elif isinstance(e, ast.Call) and not e.keywords and src(e.func) in ("np.square", "numpy.square") and len(e.args) == 1:
+            p, e = p * 2, e.args[0]
+        elif isinstance(e, ast.Call) and not e.keywords and src(e.func) in ("np.power", "numpy.power") and len(e.args) == 2 and \
+                isinstance(e.args[1], ast.Constant) and isinstance(e.args[1].value, int) and not isinstance(e.args[1].value, bool) \
+                and e.args[1].value > 0:
+            p, e = p * e.args[1].value, e.args[0]
+        elif isinstance(e, ast.BinOp) and isinstance(e.op, ast.Mult) and not isinstance(e.left, ast.Constant) and src(e.left) == src(e.right):
+            p, e = p * 2, e.left
+        elif isinstance(e, ast.Call) and not e.keywords and src(e.func) in ("np.multiply", "numpy.multiply") and len(e.args) == 2 and \
+                src(e.args[0]) == src(e.args[1]):
+            p, e = p * 2, e.args[0]
+        else:
+            break
+    return e, p
+
+
 def mode_tables(chk):
     cache = chk.__dict__.setdefault("_c14_modetables", [])
     if not cache:
@@ -1593,8 +1762,12 @@ def membership_order(chk):
             why = f"`{text}` reads `{table}` while it holds the signed mode numbers m"
         elif verdict is False:
             ch = [x for x in mt.changes(table.split("[")[0]) if env.before(x, st)] if table else []
-            why = (f"`{text}` tests the entries of `{table}` against the Neumann lists after "
-                   f"`{src(ch[-1])[:50] if ch else 'the squaring'}`: the lists hold mode numbers m but the table holds m^{pw} at this point, "
+            first = mt.hist.get(table.split("[")[0], [(0, 1, None)])[0] if table else (0, 1, None)
+            after = f"after `{src(ch[-1])[:50]}`" if ch else (
+                f"although the table is created already raised to that power by `{src(first[2])[:70]}`" if first[2] is not None and first[1] == pw
+                else "after the squaring")
+            why = (f"`{text}` tests the entries of `{table}` against the Neumann lists {after}"
+                   f": the lists hold mode numbers m but the table holds m^{pw} at this point, "
                    "so only the modes with m^%d == m (0 and 1) are recognised; a Neumann condition requested for any other mode is "
                    "not seen" % pw)
         else:
@@ -1674,6 +1847,24 @@ def _members(e, var):
     return out
 
 
+def table_key(table, field):
+    """name of one field of a per-mode table of records: self._T[<mode>][field]"""
+    return f"{table}[.][{field!r}]"
+
+
+def table_of(e, tables):
+    """the key in `tables` of the per-mode table an expression looks up (`T[I]`, `T[I][field]`), else None"""
+    if not isinstance(e, ast.Subscript):
+        return None
+    if src(e.value) in tables:
+        return src(e.value)
+    if isinstance(e.value, ast.Subscript) and isinstance(e.slice, ast.Constant):
+        k = table_key(src(e.value.value), e.slice.value)
+        if k in tables:
+            return k
+    return None
+
+
 def range_tables(chk, fn_init, ints=False):
     """the per-mode tables of slices (ints=True: also of integer bounds decided by the Neumann lists) built by the constructor: [(table text, site, loop variable, iterable, slice call)].
     Forms followed: `self._T = [slice(a, b) for m in <modes>]` and `self._T = []; for m in <modes>: ...; self._T.append(slice(a, b))`
@@ -1687,12 +1878,18 @@ def range_tables(chk, fn_init, ints=False):
             comp = comp.args[0]         # the table as an array of its elements
         if isinstance(n, ast.Assign) and isinstance(n.targets[0], ast.Attribute) and isinstance(comp, ast.ListComp) \
                 and len(comp.generators) == 1 and isinstance(comp.generators[0].target, ast.Name) and not comp.generators[0].ifs:
-            elt = comp.elt
             g = comp.generators[0]
-            if isinstance(elt, ast.Call) and src(elt.func) == "slice" and len(elt.args) == 2 and not elt.keywords:
-                out.append((src(n.targets[0]), n, g.target.id, env.x(g.iter, use=n), elt))
-            elif ints and _members(elt, g.target.id):
-                out.append((src(n.targets[0]), n, g.target.id, env.x(g.iter, use=n), elt))
+            # one element per mode: a slice, or a small record of slices (tuple / list / dict with literal keys: parallel tables merged)
+            parts = [(src(n.targets[0]), comp.elt)]
+            if isinstance(comp.elt, (ast.Tuple, ast.List)) and not any(isinstance(x, ast.Starred) for x in comp.elt.elts):
+                parts = [(table_key(src(n.targets[0]), k_), x) for k_, x in enumerate(comp.elt.elts)]
+            elif isinstance(comp.elt, ast.Dict) and comp.elt.keys and all(isinstance(k_, ast.Constant) for k_ in comp.elt.keys):
+                parts = [(table_key(src(n.targets[0]), k_.value), x) for k_, x in zip(comp.elt.keys, comp.elt.values)]
+            for key_, elt in parts:
+                if isinstance(elt, ast.Call) and src(elt.func) == "slice" and len(elt.args) == 2 and not elt.keywords:
+                    out.append((key_, n, g.target.id, env.x(g.iter, use=n), elt))
+                elif ints and _members(elt, g.target.id):
+                    out.append((key_, n, g.target.id, env.x(g.iter, use=n), elt))
         elif isinstance(n, ast.Expr) and isinstance(n.value, ast.Call) and isinstance(n.value.func, ast.Attribute) \
                 and n.value.func.attr == "append" and isinstance(n.value.func.value, ast.Attribute) and len(n.value.args) == 1:
             lp = parent(n)
@@ -1814,6 +2011,8 @@ class Ranges:
                 else:
                     self.int_tables[T] = (site, var, sl)
         self.qn = flat_view(chk, U.POISSON, QNC, "__init__")
+        # the attributes that hold the tables (a table of records is looked up as T[mode][field])
+        self.bases = {k.split("[.]")[0] for k in list(self.tables) + list(self.int_tables)}
 
     # -- predicates
     def truth(self, e, f, var):
@@ -1888,8 +2087,8 @@ class Ranges:
             return sp.Integer(1 if self.truth(e, f, var) else 0)
         if isinstance(e, ast.Attribute) and src(e) in (NB, "rspline.nbasis"):
             return NB_SYM
-        if isinstance(e, ast.Subscript) and src(e.value) in self.int_tables:
-            site, tvar, elt = self.int_tables[src(e.value)]
+        if table_of(e, self.int_tables):
+            site, tvar, elt = self.int_tables[table_of(e, self.int_tables)]
             return self.num(elt, f, self.env.order.get(id(site), 10 ** 9), tvar)
         if isinstance(e, (ast.Name, ast.Attribute)):
             if isinstance(e, ast.Name) and e.id == var:
@@ -1913,8 +2112,8 @@ class Ranges:
         if isinstance(e, ast.Call) and src(e.func) == "slice" and not e.keywords and len(e.args) in (1, 2):
             lo = e.args[0] if len(e.args) == 2 else None
             return bound(lo, sp.Integer(0)), bound(e.args[-1], length)
-        if isinstance(e, ast.Subscript) and src(e.value) in self.tables:
-            site, tvar, sl = self.tables[src(e.value)]
+        if table_of(e, self.tables):
+            site, tvar, sl = self.tables[table_of(e, self.tables)]
             return self.rng(sl, f, self.env.order.get(id(site), 10 ** 9), tvar, length)
         if isinstance(e, (ast.Name, ast.Attribute)):
             v, o = self.definition(src(e), f, at, var)
@@ -1961,7 +2160,17 @@ class Ranges:
         if isinstance(e, ast.Attribute) and src(e) == "self._stiffness0":
             # defined by the derived class under tests on the electron model / chi: every definition must hold the same range
             defs = [n for n in ast.walk(self.qn) if isinstance(n, ast.Assign) and src(n.targets[0]) == "self._stiffness0"]
-            wins = [self.window(n.value, f, 10 ** 9, depth + 1) for n in defs]
+            vals = []
+            for n in defs:
+                v_ = n.value
+                # a table of operators with literal keys / positions looked up by the convention parameter: every entry
+                if isinstance(v_, ast.Subscript) and isinstance(v_.value, ast.Dict):
+                    vals += list(v_.value.values)
+                elif isinstance(v_, ast.Subscript) and isinstance(v_.value, (ast.Tuple, ast.List)) and not isinstance(v_.slice, (ast.Slice, ast.Tuple)):
+                    vals += list(v_.value.elts)
+                else:
+                    vals.append(v_)
+            wins = [self.window(v_, f, 10 ** 9, depth + 1) for v_ in vals]
             if not wins or any(sp.simplify(x - y) != 0 for w in wins[1:] for ra, rb in zip(wins[0], w) for x, y in zip(ra, rb)):
                 raise KeyError("definitions of self._stiffness0 not found / stored for different index ranges")
             return wins[0]
@@ -2033,6 +2242,587 @@ def restricted_to_unknowns(R, e, cases, want_cols=True):
         return None, str(e_).strip('"\'')
 
 
+# ---------------------------------------------------------------------------------------------------------
+# the shared coefficient vector self._coeffs: which of its entries have been written for the (mode, z) line at hand when it is
+# evaluated into phi.  It is state carried from line to line, from mode to mode and from call to call: the two boundary entries
+# must have been zeroed for this mode (a Neumann mode writes them, the next Dirichlet mode relies on their zero) and the unknowns
+# of the mode must have been stored for this line, on EVERY path that reaches the evaluation.  The caller's mode loop and the
+# per-mode solve are followed as one unit, path by path (if / continue / early return), whichever of the two holds the statements.
+# ---------------------------------------------------------------------------------------------------------
+
+COEFFS = "self._coeffs"
+BOUNDARY_SLICES = {"0": {0}, "-1": {-1}, "[0,-1]": {0, -1}, "[-1,0]": {0, -1}, "(0,-1)": {0, -1}, "(-1,0)": {0, -1}}
+PURE_READERS = ("np.", "numpy.")
+
+
+def _whole_slice(s_):
+    return (isinstance(s_, ast.Slice) and s_.lower is None and s_.upper is None and s_.step is None) or \
+        (isinstance(s_, ast.Constant) and s_.value is Ellipsis)
+
+
+def _is_zero_value(v):
+    if isinstance(v, ast.UnaryOp) and isinstance(v.op, (ast.USub, ast.UAdd)):
+        v = v.operand
+    return isinstance(v, ast.Constant) and isinstance(v.value, (int, float, complex)) and not isinstance(v.value, bool) and v.value == 0
+
+
+def copy_store(st):
+    """np.copyto(dst, src) / dst.fill(v) written as the slice assignment it is: (dst[:], src), else None"""
+    if not (isinstance(st, ast.Expr) and isinstance(st.value, ast.Call)):
+        return None
+    c = st.value
+    dst = val = None
+    if src(c.func) in ("np.copyto", "numpy.copyto") and len(c.args) == 2 and not c.keywords:
+        dst, val = c.args
+    elif isinstance(c.func, ast.Attribute) and c.func.attr == "fill" and len(c.args) == 1 and not c.keywords:
+        dst, val = c.func.value, c.args[0]
+    if dst is None:
+        return None
+    t = ast.Subscript(value=dst, slice=ast.Slice(lower=None, upper=None, step=None), ctx=ast.Store())
+    ast.copy_location(t, st)
+    ast.fix_missing_locations(t)
+    return t, val
+
+
+def solve_stores(fn):
+    """[(statement, target, spsolve call)]: `target = spsolve(A, b)` / `target[:] = ...` / np.copyto(target, spsolve(A, b))"""
+    out = []
+    for n in ast.walk(fn):
+        if isinstance(n, ast.Assign) and len(n.targets) == 1 and isinstance(n.value, ast.Call) and _is_spsolve(n.value) and len(n.value.args) == 2:
+            out.append((n, n.targets[0], n.value))
+        else:
+            cp = copy_store(n) if isinstance(n, ast.Expr) else None
+            if cp is not None and isinstance(cp[1], ast.Call) and _is_spsolve(cp[1]) and len(cp[1].args) == 2:
+                out.append((n, cp[0], cp[1]))
+    return out
+
+
+def coeff_events(st, env, subst=None, opaque=()):
+    """what one statement does to self._coeffs: [("reset", entries) | ("store", "solved" / "zero" / "other") | ("whole", kind) |
+    ("read", None) | ("unknown", text)], writes through views (`coeffs = self._coeffs[range]`) included.  `subst` maps the parameters
+    of the function to the caller's arguments (a view of the buffer handed over by the caller); a store through one of the `opaque`
+    names (parameters that could not be bound) may or may not reach the buffer"""
+    out = []
+    subst = subst or {}
+
+    def X(e):
+        ex = env.x(e, use=st)
+        return _Sub({}, subst).visit(ex) if subst else ex
+    cp = copy_store(st)
+    if cp is not None:
+        targets, value = [cp[0]], cp[1]
+    elif isinstance(st, ast.Assign):
+        targets, value = st.targets, st.value
+    elif isinstance(st, (ast.AugAssign, ast.AnnAssign)):
+        targets, value = [st.target], st.value
+    elif isinstance(st, ast.Expr):
+        targets, value = [], st.value
+    elif isinstance(st, (ast.If, ast.While)):
+        targets, value = [], st.test
+    elif isinstance(st, ast.Return):
+        targets, value = [], st.value
+    else:
+        return out
+    vx = X(value) if value is not None else None
+    flat = []
+    for t in targets:
+        flat += list(t.elts) if isinstance(t, (ast.Tuple, ast.List)) else [t]
+    for t in flat:
+        if isinstance(t, ast.Attribute) and src(t) == COEFFS:
+            out.append(("unknown", f"`{src(st)[:50]}` rebinds the buffer"))
+            continue
+        if not isinstance(t, ast.Subscript):
+            continue
+        tx = X(t)
+        sls = []
+        while isinstance(tx, ast.Subscript):
+            sls.append(tx.slice)
+            tx = tx.value
+        if isinstance(tx, ast.Name) and tx.id in opaque:
+            out.append(("unknown", f"`{src(st)[:50]}` stores through the parameter `{tx.id}`"))
+            continue
+        if src(tx) != COEFFS:
+            continue
+        sls = [s_ for s_ in sls[::-1] if not _whole_slice(s_)]
+        if isinstance(st, ast.AugAssign) or len(flat) != len(targets) or vx is None:
+            out.append(("unknown", f"`{src(st)[:50]}` updates the buffer in place"))
+            continue
+        kind = "zero" if _is_zero_value(vx) else ("solved" if any(_is_spsolve(c) for c in ast.walk(vx)) else "other")
+        if not sls:
+            out.append(("whole", kind))
+        elif len(sls) == 1:
+            ents = BOUNDARY_SLICES.get(src(sls[0]).replace(" ", ""))
+            if ents is not None:
+                out.append(("reset", ents) if kind == "zero" else ("unknown", f"`{src(st)[:50]}` writes a boundary coefficient"))
+            elif (isinstance(sls[0], ast.Slice) and not any(isinstance(x, (ast.Name, ast.Attribute, ast.Subscript, ast.Call))
+                                                              for x in ast.walk(sls[0]))) or \
+                    isinstance(sls[0], (ast.Constant, ast.UnaryOp, ast.List, ast.Tuple)):
+                out.append(("unknown", f"`{src(st)[:50]}` writes a fixed part of the buffer"))
+            else:
+                out.append(("store", kind))
+        else:
+            out.append(("unknown", f"`{src(st)[:50]}`"))
+    if vx is not None and any(isinstance(n, ast.Attribute) and src(n) == COEFFS for n in ast.walk(vx)):
+        alias = targets and all(isinstance(t, ast.Name) for t in flat) and _is_view(vx)
+        if not alias and len(targets) == 1 and isinstance(targets[0], (ast.Tuple, ast.List)) and isinstance(vx, (ast.Tuple, ast.List)) \
+                and len(vx.elts) == len(flat):
+            # `a, view = x, self._coeffs[range]`: element by element
+            alias = all((isinstance(t, ast.Name) and _is_view(v_)) or not any(isinstance(n, ast.Attribute) and src(n) == COEFFS
+                                                                               for n in ast.walk(v_)) for t, v_ in zip(flat, vx.elts))
+        if not alias:
+            _relink(vx, None)
+            for c in [c for c in ast.walk(vx) if isinstance(c, ast.Call)]:
+                mentions = any(isinstance(n, ast.Attribute) and src(n) == COEFFS for a_ in list(c.args) + [k.value for k in c.keywords]
+                               for n in ast.walk(a_))
+                on_it = isinstance(c.func, ast.Attribute) and any(isinstance(n, ast.Attribute) and src(n) == COEFFS for n in ast.walk(c.func.value))
+                if mentions and not src(c.func).startswith(PURE_READERS):
+                    out.append(("unknown", f"`{src(c)[:50]}` receives the buffer"))
+                if on_it and c.func.attr not in ("copy", "conj", "conjugate", "astype", "view", "real", "imag", "dot", "sum", "max", "min", "any", "all"):
+                    out.append(("unknown", f"`{src(c)[:50]}` is a method of the buffer"))
+            out.append(("read", None))
+    return out
+
+
+def _events_in(stmts, env, subst=None, opaque=()):
+    """{id(statement): (statement, events)} of every statement under `stmts` that touches self._coeffs"""
+    out = {}
+    for top in stmts:
+        for n in ast.walk(top):
+            if isinstance(n, ast.stmt) and not isinstance(n, (ast.FunctionDef, ast.ClassDef)):
+                ev = coeff_events(n, env, subst, opaque)
+                if ev:
+                    out[id(n)] = (n, ev)
+    return out
+
+
+def _cond_text(conds):
+    if not conds:
+        return ""
+    t_, pol, node = conds[-1]
+    return f"`{src(t_)[:60]}` is {'true' if pol else 'false'}"
+
+
+def dirichlet_reset(chk, cls, m, callee, fn, lp, env):
+    """F4-dirichlet-reset for one entry point, F4-stale-coefficients for the per-mode solve it calls"""
+    q = f"{cls}.{m}"
+    construct = f"{cls}.{m}: self._coeffs[0] = self._coeffs[-1] = 0 before each mode"
+    good = ("both boundary coefficients are zeroed for every mode before its solution is stored and evaluated, so a Neumann mode's boundary "
+            "value cannot leak into the next Dirichlet mode")
+    leak = ("the boundary coefficients are not reset for every mode before the solve: the value written by a Neumann mode "
+            "leaks into the following Dirichlet modes (modes no longer independent, Dirichlet value non-zero)")
+    cal = solve_view(chk, callee, cls, m)
+    cenv = env_of(chk, cal)
+
+    def is_call(s_):
+        return isinstance(s_, (ast.Expr, ast.Assign, ast.Return)) and any(
+            isinstance(c, ast.Call) and isinstance(c.func, ast.Attribute) and c.func.attr == callee for c in ast.walk(s_))
+    calls = [s_ for s_ in ast.walk(lp) if isinstance(s_, ast.stmt) and is_call(s_)]
+    if not calls:
+        chk.ob("F4-dirichlet-reset", lp, construct, None, f"call of the per-mode solve {callee} not found in the mode loop", file=U.POISSON, func=q)
+        return
+    # 1. the mode loop up to the call of the per-mode solve
+    ev1 = _events_in(lp.body, env)
+    p1 = _paths(lp.body, [e[0] for e in ev1.values()] + [c for c in calls if id(c) not in ev1])
+    # 2. the per-mode solve: statements before the loop that evaluates the coefficients, then one iteration of that loop
+    # (the arguments of the call stand for the parameters: a view of the buffer may be handed over by the caller)
+    cpar = [a_.arg for a_ in cal.args.args]
+    binds = [bind_call(next(c for c in ast.walk(s_) if isinstance(c, ast.Call) and isinstance(c.func, ast.Attribute) and c.func.attr == callee),
+                       cpar) for s_ in calls]
+    subst, opaque = {}, set(cpar[1:])
+    if binds and all(b is not None for b in binds):
+        for p_ in binds[0]:
+            texts = {src(env.x(b[p_], use=s_)) if p_ in b else None for b, s_ in zip(binds, calls)}
+            if len(texts) == 1 and None not in texts and not env.amb:
+                subst[p_] = env.x(binds[0][p_], use=calls[0])
+                opaque.discard(p_)
+        # parameters with defaults that no call passes are not views of the buffer
+        opaque -= {p_ for p_ in cpar[1:] if all(p_ not in b for b in binds)}
+    ev2 = _events_in(cal.body, cenv, subst, opaque)
+    readers = [e[0] for e in ev2.values() if any(k == "read" for k, _ in e[1])]
+    zloops = [n for n in cal.body if isinstance(n, (ast.For, ast.While)) and any(r_ is x for r_ in readers for x in ast.walk(n))]
+    undecided = None
+    if p1 is None:
+        undecided = "too many paths through the mode loop"
+    elif not readers:
+        undecided = f"no evaluation of self._coeffs found in {callee}"
+    elif len(zloops) > 1 or (zloops and any(not any(r_ is x for x in ast.walk(zloops[0])) for r_ in readers)):
+        undecided = f"self._coeffs is evaluated in several places of {callee}"
+    if undecided is None:
+        if zloops:
+            k_ = next(k for k, s_ in enumerate(cal.body) if s_ is zloops[0])
+            prefix, zbody = cal.body[:k_], zloops[0].body
+        else:
+            prefix, zbody = [], cal.body
+        evs = [e[0] for e in ev2.values()]
+        p2 = _paths(prefix, evs)
+        p3 = _paths(zbody, evs)
+        if p2 is None or p3 is None:
+            undecided = f"too many paths through {callee}"
+    if undecided is not None:
+        chk.ob("F4-dirichlet-reset", lp, construct, None, undecided, file=U.POISSON, func=q)
+        _stale_once(chk, callee, None, undecided, cal)
+        return
+
+    def run(got, evmap, state, on_call=None, on_read=None):
+        """apply the events of one path, in order, to state = [reset entries, store kind, notes]"""
+        for mark, st in got:
+            if on_call is not None and any(st is c for c in calls):
+                on_call(state)
+            for kind, arg in evmap.get(id(st), (None, []))[1]:
+                if mark == "maybe":
+                    if kind != "read":
+                        state[2].append(("nested", f"`{src(st).splitlines()[0][:50]}` sits inside a nested block"))
+                    elif on_read is not None:
+                        on_read(state, st, True)
+                    continue
+                if kind == "reset":
+                    if state[1] not in (None, "zero"):
+                        state[2].append(("clobber", st))
+                    state[0] = state[0] | set(arg)
+                elif kind == "whole":
+                    state[0] = {0, -1}
+                    state[1] = arg
+                elif kind == "store":
+                    state[1] = arg
+                elif kind == "unknown":
+                    state[2].append(("unknown", arg))
+                elif kind == "read" and on_read is not None:
+                    on_read(state, st, False)
+
+    reset_stmts = [e_[0] for e_ in list(ev1.values()) + list(ev2.values()) if any(k == "reset" or k == "whole" for k, _ in e_[1])]
+
+    def blame(conds):
+        """the conditions up to the test whose other branch holds a reset: the test that lets this path skip it"""
+        for k, (t_, pol, node) in enumerate(conds):
+            other = node.orelse if pol else node.body
+            if any(r_ is x for o_ in other for x in ast.walk(o_) for r_ in reset_stmts):
+                return conds[:k + 1]
+        return []
+    at_call = []            # (reset entries, notes, conditions) for every path of the mode loop that reaches the solve
+    for conds, got, end in p1:
+        hit = []
+        state = [set(), None, []]
+        run(got, ev1, state, on_call=lambda s_: hit.append((set(s_[0]), list(s_[2]), conds)) if not hit else None)
+        at_call += hit
+    entry2 = []
+    for conds, got, end in p2:
+        if isinstance(end, (ast.Return, ast.Raise)):
+            continue
+        state = [set(), None, []]
+        run(got, ev2, state)
+        entry2.append((set(state[0]), list(state[2]), conds))
+    # distinct combinations only
+    def distinct(xs):
+        seen, out = set(), []
+        for r_, notes, conds in xs:
+            key = (frozenset(r_), tuple(sorted(str(n_[0]) for n_ in notes)))
+            if key not in seen:
+                seen.add(key)
+                out.append((r_, notes, conds))
+        return out
+    at_call, entry2 = distinct(at_call), distinct(entry2)
+    findings = []           # (rule, verdict, where, why)
+    for r1, n1, c1 in at_call:
+        for r2, n2, c2 in entry2 or [(set(), [], [])]:
+            for conds, got, end in p3:
+                state = [set(r1) | set(r2), None, list(n1) + list(n2)]
+
+                def on_read(state, st, nested, conds=conds, c1=c1, c2=c2):
+                    notes = state[2]
+                    unknown = [n_ for n_ in notes if n_[0] in ("unknown", "nested")] or nested
+                    missing = {0, -1} - state[0]
+                    clob = [n_ for n_ in notes if n_[0] == "clobber"]
+                    if clob:
+                        findings.append(("reset", None if unknown else False, clob[0][1],
+                                         f"`{src(clob[0][1])[:50]}` runs after the solution of the line was stored and before it is evaluated: "
+                                         "for a mode with a Neumann condition that coefficient is an unknown and its solved value is replaced by 0"))
+                    elif missing:
+                        findings.append(("reset", None if unknown else False, st, (missing, blame(conds) or blame(c2) or blame(c1))))
+                    else:
+                        findings.append(("reset", True, st, ""))
+                    if state[1] == "solved":
+                        findings.append(("stale", True, st, ""))
+                    elif state[1] is None:
+                        findings.append(("stale", None if unknown else False, st, ("none", conds)))
+                    else:
+                        findings.append(("stale", None, st, (state[1], conds)))
+                run(got, ev2, state, on_read=on_read)
+    # ---- F4-dirichlet-reset
+    rs = [f for f in findings if f[0] == "reset"]
+    bad_ = [f for f in rs if f[1] is False]
+    und_ = [f for f in rs if f[1] is None]
+    if bad_:
+        f = bad_[0]
+        if isinstance(f[3], str):
+            why = f[3]
+        else:
+            missing, conds = f[3]
+            anywhere = set()
+            for e_ in list(ev1.values()) + list(ev2.values()):
+                for k, a in e_[1]:
+                    if k == "reset":
+                        anywhere |= set(a)
+            if len(missing) == 1 and anywhere and not (anywhere & missing) and not conds:
+                side = "upper" if 0 in anywhere else "lower"
+                why = (f"only one boundary coefficient is reset per mode: the {side} boundary value of a Neumann mode leaks into the "
+                       "following Dirichlet modes")
+            else:
+                why = leak
+                outside = [n for n in ast.walk(fn) if isinstance(n, ast.Assign) and _reset_targets(n) and not any(n is x for x in ast.walk(lp))]
+                late = [e_[0] for e_ in ev1.values() if any(k == "reset" for k, _ in e_[1]) and all(env.before(c, e_[0]) for c in calls)]
+                if conds:
+                    why += f" - on the path where {_cond_text(conds)} the reset is skipped"
+                elif outside:
+                    why += f" - `{src(outside[0])[:40]}` runs once per call, outside the loop over the modes"
+                elif late:
+                    why += f" - `{src(late[0])[:40]}` runs after the solve of the mode"
+        chk.ob("F4-dirichlet-reset", lp, construct, False, why, file=U.POISSON, func=q)
+    elif und_ or not rs:
+        notes = "no path from the mode loop to the evaluation of the coefficients was followed"
+        if und_:
+            notes = "the writes of self._coeffs between the start of a mode and the evaluation of its coefficients were not all followed"
+        chk.ob("F4-dirichlet-reset", lp, construct, None, notes, file=U.POISSON, func=q)
+    else:
+        chk.ob("F4-dirichlet-reset", lp, construct, True, good, file=U.POISSON, func=q)
+    _stale_once(chk, callee, [f for f in findings if f[0] == "stale"], None, cal, cenv, zloops)
+
+
+def _stale_once(chk, callee, stale, undecided, cal=None, cenv=None, zloops=None):
+    """F4-stale-coefficients: the unknowns of the mode are stored for this line on every path that reaches their evaluation"""
+    done = chk.__dict__.setdefault("_c14_stale_done", set())
+    if (callee, id(cal)) in done:
+        return
+    done.add((callee, id(cal)))
+    q = f"{CLS}.{callee}"
+    construct = f"{callee}: the coefficients evaluated into phi were solved for this (mode, z) line"
+    if undecided is not None or not stale:
+        chk.ob("F4-stale-coefficients", cal if cal is not None else chk.mod(U.POISSON).tree, construct, None,
+               undecided or "no evaluation of self._coeffs reached", file=U.POISSON, func=q)
+        return
+    # a path that fills the unknowns with zeros instead of solving stores the solution exactly when its conditions say that the
+    # right-hand side line is exactly zero (linear problem, homogeneous boundary values)
+    zero_paths = 0
+    judged = []
+    for f in stale:
+        if f[1] is None and isinstance(f[3], tuple) and f[3][0] == "zero" and f[3][1] and cenv is not None:
+            kinds = [_zero_test(cenv.x(t_, use=if_), pol, lambda e_, if_=if_: src(cenv.x(e_, use=if_)).replace(" ", "").startswith("rho.get1DSlice("))
+                     for t_, pol, if_ in f[3][1]]
+            if any(k_ == "exact" for k_ in kinds):
+                zero_paths += 1
+                judged.append((f[0], True, f[2], ""))
+                continue
+        judged.append(f)
+    bad_ = [f for f in judged if f[1] is False]
+    und_ = [f for f in judged if f[1] is None]
+    if bad_:
+        _, _, st, (kind, conds) = bad_[0]
+        lead = f"on the path where {_cond_text(conds)}" if conds else "on a path through the loop"
+        chk.ob("F4-stale-coefficients", conds[-1][2] if conds else st, construct, False,
+               f"{lead} the coefficient vector self._coeffs is evaluated into phi by `{src(st)[:60]}` although nothing was stored into the "
+               "unknowns of the mode for this line: they still hold the solution of the previous line / mode / call (or the uninitialised "
+               "memory of np.empty on a fresh solver), only the two boundary entries are reset per mode. The line of phi is then not the "
+               "solution for this rho: it is not zero for rho = 0 and depends on what was solved before (modes and calls no longer independent)",
+               file=U.POISSON, func=q)
+        return
+    if und_:
+        _, _, st, info = und_[0]
+        why = "the writes of self._coeffs before its evaluation were not all followed"
+        if isinstance(info, tuple) and info[0] in ("zero", "other"):
+            kind, conds = info
+            why = (f"on the path where {_cond_text(conds) or 'the loop body runs'} the unknowns are filled with "
+                   f"{'zeros' if kind == 'zero' else 'a value that is not the result of the sparse solve'} before they are evaluated: not "
+                   "recognised as the solution of the line")
+        chk.ob("F4-stale-coefficients", st, construct, None, why, file=U.POISSON, func=q)
+        return
+    chk.ob("F4-stale-coefficients", judged[0][2], construct, True,
+           "on every path through an iteration of the z loop the unknowns of the mode are overwritten by the sparse solve for this line before "
+           "self._coeffs is evaluated" + (" (filled with zeros for a line of rho that is exactly zero)" if zero_paths else ""),
+           file=U.POISSON, func=q)
+
+
+def carried_state(chk):
+    """F4-carried-state: a value computed from the mode at hand (a per-mode table looked up at the mode index, a line of rho) and
+    kept in an attribute of the solver under a `not yet computed` test is state carried to the next mode / line / call: unless
+    the test (or the key it is stored under) names the mode, every later mode reads the value of the first one"""
+    seen_fn = set()
+    found = 0
+    for cls, m, callee in entry_points(chk):
+        fn, lp, li, gi = mode_loop(chk, cls, m)
+        units = []
+        if lp is not None:
+            units.append((f"{cls}.{m}", fn, {x for x in (li, gi) if x and x.isidentifier()}))
+        cal = flat_view(chk, U.POISSON, CLS, callee)
+        li_p, gi_p, _, _ = solve_roles(chk, callee)
+        units.append((f"{CLS}.{callee}", cal, {li_p, gi_p}))
+        for q, f_, modevars in units:
+            if id(f_) in seen_fn:
+                continue
+            seen_fn.add(id(f_))
+            env = env_of(chk, f_)
+            zvars = set()
+            for n in ast.walk(f_):
+                if isinstance(n, ast.For):
+                    zvars |= {x.id for x in ast.walk(n.target) if isinstance(x, ast.Name)}
+            zvars -= modevars
+            for st in [n for n in ast.walk(f_) if isinstance(n, ast.Assign) and len(n.targets) == 1]:
+                t = st.targets[0]
+                key = None
+                if isinstance(t, ast.Subscript) and isinstance(t.value, ast.Attribute):
+                    t, key = t.value, t.slice
+                if not (isinstance(t, ast.Attribute) and isinstance(t.value, ast.Name) and t.value.id == "self"):
+                    continue
+                A = src(t)
+                # kept only when not yet there: an enclosing test on the attribute itself
+                guards = []
+                cur, p_ = st, parent(st)
+                while p_ is not None and p_ is not f_:
+                    if isinstance(p_, ast.If) and any(isinstance(x, ast.Attribute) and src(x) == A for x in ast.walk(p_.test)):
+                        guards.append(p_)
+                    cur, p_ = p_, parent(p_)
+                if not guards:
+                    continue
+                found += 1
+                ex = env.x(st.value, use=st)
+                deps = {x.id for x in ast.walk(ex) if isinstance(x, ast.Name)}
+                keyed = {x.id for g_ in guards for x in ast.walk(env.x(g_.test, use=g_)) if isinstance(x, ast.Name)}
+                if key is not None:
+                    keyed |= {x.id for x in ast.walk(env.x(key, use=st)) if isinstance(x, ast.Name)}
+                mode_dep, mode_key = deps & modevars, keyed & modevars
+                z_dep, z_key = deps & zvars, keyed & zvars
+                construct = f"{A} kept across modes: {src(st)[:60]}"
+                if mode_dep and not mode_key:
+                    chk.ob("F4-carried-state", st, construct, False,
+                           f"`{src(st)[:80]}` is computed from the mode at hand (`{sorted(mode_dep)[0]}`) but stored once, under "
+                           f"`{src(guards[0].test)[:50]}`, a test that does not name the mode: the solves of all the other modes (and of later "
+                           "calls) read the value computed for the first mode solved by this process, so a mode is solved with the rows / range / "
+                           "matrix of another mode (modes not independent, result depends on the process grid and on the call history)",
+                           file=U.POISSON, func=q)
+                elif z_dep and not z_key:
+                    chk.ob("F4-carried-state", st, construct, False,
+                           f"`{src(st)[:80]}` depends on the line at hand (`{sorted(z_dep)[0]}`) but is stored once, under "
+                           f"`{src(guards[0].test)[:50]}`: every later line reads the value of the first one", file=U.POISSON, func=q)
+                elif env.amb or (deps & (set(_params(f_)) - {"self"}) - modevars - keyed):
+                    chk.ob("F4-carried-state", st, construct, None,
+                           f"`{src(st)[:80]}` is kept across calls under `{src(guards[0].test)[:50]}` and depends on the arguments of the call: "
+                           "not followed", file=U.POISSON, func=q)
+                else:
+                    chk.ob("F4-carried-state", st, construct, True,
+                           "the value kept does not depend on the mode / line at hand, or is stored under a key that names it",
+                           file=U.POISSON, func=q)
+    if not found:
+        chk.ob("F4-carried-state", chk.mod(U.POISSON).tree, "no value of one mode is kept in the solver for the next", True,
+               "the per-mode solves keep no memoised per-mode value in attributes of the solver (the shared coefficient buffer is judged "
+               "by F4-dirichlet-reset / F4-stale-coefficients)", file=U.POISSON, func="<module>", nontrivial=False)
+
+
+NOT_NONE = ...        # marker: an argument that is an object of the caller (one of its own required parameters), not None
+
+
+def solve_view(chk, callee, cls=None, m=None):
+    """the per-mode solve as the entry point (cls, m) runs it: when every call of that entry point binds a parameter to a literal
+    True / False / None (or leaves it at such a default), or hands over one of its own required parameters, the tests on that
+    parameter are decided and the branches not taken are dropped - a per-mode solve merged from two siblings (`rhoFunc=None`) is
+    thereby analysed once per binding.  Without such a parameter this is the flat view itself."""
+    base = flat_view(chk, U.POISSON, CLS, callee)
+    if cls is None:
+        return base
+    cache = chk.__dict__.setdefault("_c14_solve_views", {})
+    key = (callee, cls, m)
+    if key in cache:
+        return cache[key]
+    cache[key] = base
+    try:
+        fn, lp, li, gi = mode_loop(chk, cls, m)
+    except AnalysisError:
+        return base
+    if lp is None:
+        return base
+    cpar = [a_.arg for a_ in base.args.args]
+    dflt = dict(zip(cpar[len(cpar) - len(base.args.defaults):], base.args.defaults))
+    calls = [c for c in ast.walk(lp) if isinstance(c, ast.Call) and isinstance(c.func, ast.Attribute) and c.func.attr == callee]
+    binds = [bind_call(c, cpar) for c in calls]
+    if not binds or any(b is None for b in binds):
+        return base
+    required = set(_params(fn)[:len(fn.args.args) - len(fn.args.defaults)])
+    flags = {}
+    for p_ in cpar[1:]:
+        vals = [b.get(p_, dflt.get(p_)) for b in binds]
+        if all(isinstance(v, ast.Constant) and (v.value is None or isinstance(v.value, bool)) for v in vals) and len({repr(v.value) for v in vals}) == 1:
+            flags[p_] = ast.Constant(value=vals[0].value)
+        elif all(isinstance(v, ast.Name) and v.id in required and v.id != "self" for v in vals):
+            flags[p_] = ast.Constant(value=NOT_NONE)
+    stored = {n.id for n in ast.walk(base) if isinstance(n, ast.Name) and isinstance(n.ctx, ast.Store)}
+    tested = {x.id for n in ast.walk(base) if isinstance(n, (ast.If, ast.IfExp)) for x in ast.walk(n.test) if isinstance(x, ast.Name)}
+    flags = {k: v for k, v in flags.items() if k in tested and k not in stored}
+    if not flags:
+        return base
+    view = _clone(base)
+    view._qual = getattr(base, "_qual", callee)
+
+    class T(ast.NodeTransformer):
+        def visit_If(self_, node):
+            node.test = _Sub({}, flags).visit(node.test) if _decided(node.test) else node.test
+            return self_.generic_visit(node)
+
+        def visit_IfExp(self_, node):
+            node.test = _Sub({}, flags).visit(node.test) if _decided(node.test) else node.test
+            return self_.generic_visit(node)
+
+    def _decided(test):
+        t2 = _Sub({}, flags).visit(_clone(test))
+        return _const_truth(t2) is not None
+    T().visit(view)
+    view.body = _fold_constants(view.body) or [ast.Pass()]
+    ast.fix_missing_locations(view)
+    _relink(view, parent(base))
+    cache[key] = view
+    return view
+
+
+def _is_spsolve(c):
+    return isinstance(c, ast.Call) and src(c.func).split(".")[-1] == "spsolve" and len(c.args) >= 2
+
+
+def solve_operator(chk, callee, cls=None, m=None):
+    """the caller and the per-mode solve are one unit: (the matrix the per-mode solve hands to the sparse solve, as an expression over
+    its own parameters with its locals expanded; its parameter names; was every local followed?).  A restriction / scaling of the
+    operator done by the callee is thereby composed with what the caller passes.  None when there is not exactly one sparse solve."""
+    cal = solve_view(chk, callee, cls, m)
+    env = env_of(chk, cal)
+    calls = [c for c in ast.walk(cal) if _is_spsolve(c)]
+    if len(calls) != 1:
+        return None
+    st = _stmt_of(calls[0])
+    mat = env.x(calls[0].args[0], use=st)
+    return mat, [a.arg for a in cal.args.args], not env.amb
+
+
+def bind_call(call, params, skip_self=True):
+    """parameter -> argument expression of a method call (positional and keyword), None when it cannot be bound"""
+    ps = params[1:] if skip_self else params
+    if any(isinstance(a, ast.Starred) for a in call.args) or any(k.arg is None for k in call.keywords) or len(call.args) > len(ps):
+        return None
+    out = dict(zip(ps, call.args))
+    for k in call.keywords:
+        if k.arg not in ps or k.arg in out:
+            return None
+        out[k.arg] = k.value
+    return out
+
+
+def _guarded_by_m0_operator(st, stop):
+    """the statement only runs when `self._stiffness0 is not None`: the branch of a solver whose sub-class provided an m = 0 operator"""
+    cur, p = st, parent(st)
+    while p is not None and p is not stop:
+        if isinstance(p, ast.If) and any(cur is x for x in p.body):
+            for a_, pol in _conjuncts(p.test, True):
+                if pol and isinstance(a_, ast.Compare) and len(a_.ops) == 1 and isinstance(a_.ops[0], ast.IsNot) and \
+                        src(a_.left) == "self._stiffness0" and src(a_.comparators[0]) == "None":
+                    return True
+        cur, p = p, parent(p)
+    return False
+
+
 def per_mode(chk):
     fn_init = flat_view(chk, U.POISSON, CLS, "__init__")
     env_i = env_of(chk, fn_init)
@@ -2047,7 +2837,7 @@ def per_mode(chk):
     m0_operator(chk)
     mode_power(chk)
     # per-mode operator and Dirichlet reset inside the loop, before the solve
-    for cls, m, callee in ENTRIES:
+    for cls, m, callee in entry_points(chk):
         fn, lp, li, gi = mode_loop(chk, cls, m)
         if lp is None:
             for rule in ("F4-dirichlet-reset", "F4-mode-operator"):
@@ -2056,44 +2846,7 @@ def per_mode(chk):
             continue
         env = env_of(chk, fn)
         body = lp.body
-        pos_call = [k for k, s_ in enumerate(body) if any(isinstance(c, ast.Call) and isinstance(c.func, ast.Attribute)
-                                                          and c.func.attr == callee for c in ast.walk(s_))]
-        resets = {}
-        for k, s_ in enumerate(body):
-            for r_ in _reset_targets(s_):
-                resets.setdefault(r_, k)
-        ok = bool(pos_call) and set(resets) == {0, -1} and all(v < pos_call[0] for v in resets.values())
-        bad = None
-        if not ok and pos_call and not resets:
-            # the reset may be the first thing the per-mode solve does
-            cal = flat_view(chk, U.POISSON, CLS, callee)
-            first = {}
-            for k, s_ in enumerate(cal.body):
-                if isinstance(s_, (ast.For, ast.While, ast.If, ast.Try, ast.With)):
-                    break
-                for r_ in _reset_targets(s_):
-                    first.setdefault(r_, k)
-                if any(isinstance(c, ast.Call) and src(c.func).split(".")[-1] == "spsolve" for c in ast.walk(s_)):
-                    break
-            if set(first) == {0, -1}:
-                ok = True
-        if not ok and pos_call:
-            outside = [n for n in ast.walk(fn) if isinstance(n, ast.Assign) and _reset_targets(n) and not any(n is x for x in ast.walk(lp))]
-            anyreset = any(isinstance(n, (ast.Assign, ast.AugAssign)) and any("self._coeffs[" in src(t) for t in
-                                                                              (n.targets if isinstance(n, ast.Assign) else [n.target]))
-                           for n in ast.walk(lp)) or \
-                any(isinstance(n, ast.Call) and isinstance(n.func, ast.Attribute) and src(n.func.value) == "self._coeffs" for n in ast.walk(lp))
-            late = bool(resets) and any(v > pos_call[0] for v in resets.values())
-            if outside or not anyreset or late:
-                bad = ("the boundary coefficients are not reset for every mode before the solve: the value written by a Neumann mode "
-                       "leaks into the following Dirichlet modes (modes no longer independent, Dirichlet value non-zero)")
-            elif set(resets) and set(resets) != {0, -1} and not any(isinstance(n, ast.If) for n in body):
-                side = "upper" if 0 in resets else "lower"
-                bad = (f"only one boundary coefficient is reset per mode: the {side} boundary value of a Neumann mode leaks into the "
-                       "following Dirichlet modes")
-        chk.pat("F4-dirichlet-reset", lp, f"{cls}.{m}: self._coeffs[0] = self._coeffs[-1] = 0 before each mode", ok,
-                "both boundary coefficients are zeroed inside the per-mode loop before the solve, so a Neumann mode's boundary "
-                "value cannot leak into the next Dirichlet mode", bad, file=U.POISSON, func=f"{cls}.{m}")
+        dirichlet_reset(chk, cls, m, callee, fn, lp, env)
         # every mode of the local block is solved: no path through an iteration of the mode loop misses the per-mode solve
         call_stmts = [s_ for s_ in ast.walk(lp) if isinstance(s_, (ast.Expr, ast.Assign, ast.Return)) and any(
             isinstance(c, ast.Call) and isinstance(c.func, ast.Attribute) and c.func.attr == callee for c in ast.walk(s_))]
@@ -2128,7 +2881,7 @@ def per_mode(chk):
             chk.ob("F4-output-complete", where_, f"{cls}.{m}: every mode of the local block is solved", v_, why_, file=U.POISSON, func=f"{cls}.{m}")
         # operator for mode I: restricted to the unknowns of the global mode index, every per-mode table read at that index
         R = ranges_of(chk)
-        per_mode_tables = set(TABLES) | set(R.tables) | set(R.int_tables) | R.mt.tables()
+        per_mode_tables = set(TABLES) | set(R.tables) | set(R.int_tables) | R.mt.tables() | R.bases
         oko, bad, und = False, None, None
         tabs = []
         for s_ in ast.walk(lp):
@@ -2143,15 +2896,31 @@ def per_mode(chk):
             # the matrix handed to the per-mode solve: the argument itself, or every definition of the local it names
             cal = flat_view(chk, U.POISSON, CLS, callee)
             cpar = [a_.arg for a_ in cal.args.args]
+            # caller and callee are one unit: what the per-mode solve does to its operator argument before the sparse solve (a
+            # restriction to the unknowns that moved into it, ...) is composed with the expression the caller passes
+            so = solve_operator(chk, callee, cls, m)
+            followed = True
             sites = []
             for c in [c for c in ast.walk(lp) if isinstance(c, ast.Call) and isinstance(c.func, ast.Attribute) and c.func.attr == callee]:
-                arg = c.args[2] if len(c.args) > 2 else next((k.value for k in c.keywords if len(cpar) > 3 and k.arg == cpar[3]), None)
+                bound = bind_call(c, cpar) if len(cpar) > 3 else None
+                arg = bound.get(cpar[3]) if bound else (c.args[2] if len(c.args) > 2 else None)
                 if arg is None:
                     continue
+
+                def composed(ex, c=c, bound=bound):
+                    if so is None or bound is None:
+                        return ex
+                    mat, _, _ = so
+                    sub = {p_: env.x(a_, use=_stmt_of(c)) for p_, a_ in bound.items() if p_ != cpar[3]}
+                    sub[cpar[3]] = ex
+                    return _Sub({}, sub).visit(_clone(mat))
+                if so is not None and (bound is None or not so[2]):
+                    followed = False
                 if isinstance(arg, ast.Name) and arg.id in env.bind:
-                    sites += [(d[1], env.x(d[2], use=d[1])) for d in env.bind[arg.id] if d[2] is not None and any(d[1] is x for x in ast.walk(lp))]
+                    sites += [(d[1], composed(env.x(d[2], use=d[1]))) for d in env.bind[arg.id]
+                              if d[2] is not None and any(d[1] is x for x in ast.walk(lp))]
                 else:
-                    sites.append((_stmt_of(c), env.x(arg, use=_stmt_of(c))))
+                    sites.append((_stmt_of(c), composed(env.x(arg, use=_stmt_of(c)))))
             generic = [(st_, ex) for st_, ex in sites if any(src(x) == "self._k2PhiPsi" for x in ast.walk(ex))]
             special = [(st_, ex) for st_, ex in sites if not any(src(x) == "self._k2PhiPsi" for x in ast.walk(ex))]
             verdicts = []
@@ -2161,12 +2930,24 @@ def per_mode(chk):
                     v_, why_ = None, "the theta-independent operator self._stiffnessMatrix does not enter the operator of the mode"
                 verdicts.append((v_, why_, ex))
             for st_, ex in special:
-                # an operator without the m^2 term: the mode m = 0 of the derived solver, whose boundary conditions are known
-                cases0 = qn_mode0_case(chk) if cls == QNC else None
+                # an operator without the m^2 term: the mode m = 0 of the derived solver, whose boundary conditions are known (in the
+                # derived class, or in the base class on the branch that runs only when a sub-class provided the m = 0 operator)
+                cases0 = None
+                if cls == QNC or (_guarded_by_m0_operator(st_, fn) and any(src(x) == "self._stiffness0" for x in ast.walk(ex))):
+                    cases0 = qn_mode0_case(chk)
                 v_, why_ = restricted_to_unknowns(R, ex, cases0) if cases0 else (None, "operator without the k2 block outside the m = 0 branch "
                                                                                  "of the quasi-neutrality solver")
                 verdicts.append((v_, why_, ex))
-            if any(v_ is False for v_, _, _ in verdicts):
+            if not followed:
+                verdicts = [(None if v_ is False else v_, why_ if v_ is not False else
+                             "the matrix handed to the sparse solve inside the per-mode solve was not followed to its definition", ex)
+                            for v_, why_, ex in verdicts]
+            wrong2 = sorted({src(n) for _, ex in sites for n in ast.walk(ex) if isinstance(n, ast.Subscript)
+                             and src(n.value) in per_mode_tables and li is not None and src(n.slice) == li != gi})
+            if wrong2 and followed:
+                bad = (f"in the operator handed to the sparse solve, `{src(sites[0][1])[:80]}`, per-mode tables are looked up with {wrong2} "
+                       f"instead of the global mode index `{gi}`")
+            elif any(v_ is False for v_, _, _ in verdicts):
                 v_, why_, ex = [x for x in verdicts if x[0] is False][0]
                 bad = f"the operator of mode {gi}, `{src(ex)[:70]}`, is " + why_ if why_.startswith("restricted") else why_
             elif verdicts and generic and all(v_ is True for v_, _, _ in verdicts):
@@ -2182,27 +2963,126 @@ def per_mode(chk):
                    file=U.POISSON, func=f"{cls}.{m}")
     mode_solve(chk)
     output_complete(chk)
+    carried_state(chk)
+
+
+def callee_binding(chk, callee, exclude=()):
+    """parameter -> the expression every caller passes for it (resolved in the caller), for the parameters of a per-mode solve that
+    receive a computed value (a view of the coefficient buffer, rows of the mass matrix) rather than a plain name: work moved from
+    the callee to its callers is thereby composed back.  Only parameters on which all the calling entry points agree."""
+    cal = flat_view(chk, U.POISSON, CLS, callee)
+    cpar = [a_.arg for a_ in cal.args.args]
+    seen = {}
+    for cls, m, cl in entry_points(chk):
+        if cl != callee:
+            continue
+        fn, lp, li, gi = mode_loop(chk, cls, m)
+        if lp is None:
+            return {}
+        env = env_of(chk, fn)
+        for c in [c for c in ast.walk(lp) if isinstance(c, ast.Call) and isinstance(c.func, ast.Attribute) and c.func.attr == callee]:
+            b = bind_call(c, cpar)
+            if b is None:
+                return {}
+            for p_, a_ in b.items():
+                ex = env.x(a_, use=_stmt_of(c))
+                seen.setdefault(p_, []).append(None if env.amb else ex)
+    out = {}
+    for p_, exs in seen.items():
+        if p_ in exclude or any(e is None for e in exs) or len({src(e) for e in exs}) != 1 or isinstance(exs[0], (ast.Name, ast.Constant)):
+            continue
+        out[p_] = exs[0]
+    return out
+
+
+def solve_roles(chk, callee):
+    """the parameters of a per-mode solve by role, from what its callers pass: (local mode index, global mode index, operator,
+    the callers' own names of the global mode index)"""
+    cal = flat_view(chk, U.POISSON, CLS, callee)
+    cpar = [a_.arg for a_ in cal.args.args]
+    li_p = gi_p = op_p = None
+    gnames = set()
+    for cls, m, cl in entry_points(chk):
+        if cl != callee:
+            continue
+        fn, lp, li, gi = mode_loop(chk, cls, m)
+        if lp is None:
+            continue
+        env = env_of(chk, fn)
+        if gi:
+            gnames.add(gi)
+        for c in [c for c in ast.walk(lp) if isinstance(c, ast.Call) and isinstance(c.func, ast.Attribute) and c.func.attr == callee]:
+            b = bind_call(c, cpar)
+            for p_, a_ in (b or {}).items():
+                t = src(a_)
+                if li and t == li:
+                    li_p = p_
+                if gi and (t == gi or src(env.x(a_, use=_stmt_of(c))) == gi):
+                    gi_p = p_
+                if any(isinstance(x, ast.Attribute) and src(x) in ("self._k2PhiPsi", "self._stiffness0", "self._stiffnessMatrix")
+                       for x in ast.walk(env.x(a_, use=_stmt_of(c)))):
+                    op_p = p_
+    if len(cpar) >= 6:
+        li_p, gi_p, op_p = li_p or cpar[4], gi_p or cpar[5], op_p or cpar[3]
+    return li_p or "i", gi_p or "I", op_p or "stiffnessMatrix", gnames
+
+
+def entry_points(chk):
+    """(class, entry point, per-mode solve it calls): the per-mode solve is found by its role - the method of the solver that the
+    loop over the modes calls with the potential grid - so that a renamed / merged per-mode solve is followed; the reference names
+    are the fallback"""
+    cache = chk.__dict__.setdefault("_c14_entries", [])
+    if cache:
+        return cache[0]
+    out = []
+    mod = chk.mod(U.POISSON)
+    for cls, m, default in ENTRIES:
+        callee = default
+        try:
+            fn, lp, li, gi = mode_loop(chk, cls, m)
+        except AnalysisError:
+            lp = None
+        if lp is not None:
+            cands = []
+            for c in ast.walk(lp):
+                if isinstance(c, ast.Call) and isinstance(c.func, ast.Attribute) and isinstance(c.func.value, ast.Name) and c.func.value.id == "self" \
+                        and _method(mod, cls, c.func.attr)[1] is not None and \
+                        any(isinstance(a_, ast.Name) and a_.id == "phi" for a_ in list(c.args) + [k.value for k in c.keywords]):
+                    cands.append(c.func.attr)
+            if default not in cands and len(set(cands)) == 1:
+                callee = cands[0]
+        out.append((cls, m, callee))
+    cache.append(out)
+    return out
 
 
 def mode_solve(chk):
     """_solveMode: rhs = mass . coeffs(rho), unknowns written into the mode's coefficient range; both solves: evaluation of the
     full coefficient vector at the radial nodes, real and imaginary part"""
-    q = f"{CLS}._solveMode"
-    sm = flat_view(chk, U.POISSON, CLS, "_solveMode")
+    eps = entry_points(chk)
+    disc = next((cl for c_, m_, cl in eps if c_ == CLS and m_ == "solveEquation"), "_solveMode")
+    funcs = next((cl for c_, m_, cl in eps if m_ == "solveEquationForFunction"), "_solveModeFunc")
+    q = f"{CLS}.{disc}"
+    sm = solve_view(chk, disc, CLS, "solveEquation")
     env = env_of(chk, sm)
-    pr = [a.arg for a in sm.args.args]
-    li, gi = (pr[4], pr[5]) if len(pr) >= 6 else ("i", "I")
-    solves = [n for n in ast.walk(sm) if isinstance(n, ast.Assign) and isinstance(n.value, ast.Call)
-              and src(n.value.func).split(".")[-1] == "spsolve" and len(n.value.args) == 2]
+    li, gi, opn, gnames = solve_roles(chk, disc)
+    # what the callers compute and hand over (a view of the coefficients, the rows of the mass matrix) stands for the parameter
+    sub_ = callee_binding(chk, disc, exclude={opn})
+
+    def S(e):
+        return _Sub({}, sub_).visit(e) if sub_ else e
+    sstores = solve_stores(sm)
+    solves = [x[0] for x in sstores]
     ok, bad, und = False, None, []
     if len(solves) == 1:
-        st = solves[0]
-        tgt = env.x(st.targets[0], use=st)
-        mat = env.x(st.value.args[0], use=st)
-        rhs = env.x(st.value.args[1], use=st)
+        st, tnode, scall = sstores[0]
+        tgt = S(env.x(tnode, use=st))
+        mat = S(env.x(scall.args[0], use=st))
+        amb_m = set(env.amb)
+        rhs = S(env.x(scall.args[1], use=st))
         ts = src(tgt).replace(" ", "")
         R = ranges_of(chk)
-        tables_ = set(TABLES) | set(R.tables) | set(R.int_tables) | R.mt.tables()
+        tables_ = set(TABLES) | set(R.tables) | set(R.int_tables) | R.mt.tables() | R.bases
         # where the solution goes: the entries of the coefficient vector that are the unknowns of the mode
         t0 = tgt
         if isinstance(t0, ast.Subscript) and isinstance(t0.slice, ast.Slice) and t0.slice.lower is None and t0.slice.upper is None \
@@ -2221,20 +3101,56 @@ def mode_solve(chk):
                         break
             except KeyError as e_:
                 ok_t, why_t = None, str(e_).strip('"\'')
-        ok_m = src(mat) == (pr[3] if len(pr) >= 6 else "stiffnessMatrix")
+        # the matrix of the solve is the operator received from the caller (what the callee does to it on the way - a restriction to
+        # the unknowns - is composed with the caller's expression and judged by F4-mode-operator)
+        ok_m = any(isinstance(x, ast.Name) and x.id == opn for x in ast.walk(mat)) and not (
+            {x.id for x in ast.walk(mat) if isinstance(x, ast.Name)} & amb_m) and \
+            not any(isinstance(x, ast.Attribute) and src(x) in BLOCKS + ("self._stiffnessMatrix", "self._stiffness0") for x in ast.walk(mat))
         # the right-hand side: the rows of the mass matrix that belong to the unknowns, applied to every coefficient of rho
         ok_r, why_r = None, f"right-hand side `{src(rhs)[:60]}` is not the mass matrix applied to the coefficients of rho"
-        mexp = None
-        if isinstance(rhs, ast.Call) and isinstance(rhs.func, ast.Attribute) and rhs.func.attr == "dot" and len(rhs.args) == 1 \
-                and src(rhs.args[0]) == "self._spline.coeffs":
-            mexp = rhs.func.value
-        elif isinstance(rhs, ast.BinOp) and isinstance(rhs.op, ast.MatMult) and src(rhs.right) == "self._spline.coeffs":
-            mexp = rhs.left
+        mexp = vec = None
+        if isinstance(rhs, ast.Call) and isinstance(rhs.func, ast.Attribute) and rhs.func.attr == "dot" and len(rhs.args) == 1 and not rhs.keywords:
+            mexp, vec = rhs.func.value, rhs.args[0]
+        elif isinstance(rhs, ast.BinOp) and isinstance(rhs.op, ast.MatMult):
+            mexp, vec = rhs.left, rhs.right
+        # the vector: every spline coefficient of rho, or a range of them (then the columns of the matrix must be that range, and the
+        # range must be the whole space: rho, unlike phi, does not vanish at a Dirichlet boundary)
+        vsl = None
+        if isinstance(vec, ast.Subscript) and src(vec.value) == "self._spline.coeffs" and not isinstance(vec.slice, ast.Tuple):
+            vsl = vec.slice
+            if _whole_slice(vsl):
+                vsl = None
+        elif vec is not None and src(vec) != "self._spline.coeffs":
+            mexp = None
         if mexp is not None and any(src(x) == "self._massMatrix" for x in ast.walk(mexp)) and \
                 not any(isinstance(x, ast.Attribute) and src(x) in BLOCKS and src(x) != "self._massMatrix" for x in ast.walk(mexp)):
-            ok_r, why_r = restricted_to_unknowns(R, mexp, FLAG_CASES, want_cols=False)
-            if ok_r is False:
-                why_r = "the right-hand side of the solve takes the wrong rows / columns of the mass matrix: " + why_r
+            if vsl is None:
+                ok_r, why_r = restricted_to_unknowns(R, mexp, FLAG_CASES, want_cols=False)
+                if ok_r is False:
+                    why_r = "the right-hand side of the solve takes the wrong rows / columns of the mass matrix: " + why_r
+            else:
+                try:
+                    ok_r, why_r = True, ""
+                    full = (sp.Integer(0), NB_SYM)
+                    for f in FLAG_CASES:
+                        rows, cols = R.window(mexp, f)
+                        vr = R.rng(vsl, f, 10 ** 9, None, NB_SYM)
+                        if not _same_range(vr, full):
+                            ok_r = False
+                            why_r = (f"the mass matrix is applied to the coefficients {_fmt(vr)} of rho only (`{src(vec)[:60]}`, matrix columns "
+                                     f"{_fmt(cols)}) for {_case_text(f)}: rho, unlike phi, does not vanish at a Dirichlet boundary, so the load "
+                                     "vector loses the contributions E rho_0 <B_0, B_i> / E rho_last <B_last, B_i> of the boundary coefficients "
+                                     "of rho; the result is not the Galerkin solution whenever rho is not zero at a Dirichlet boundary "
+                                     "(_solveModeFunc, which projects rho on every basis function, is not affected)")
+                            break
+                        if not _same_range(cols, vr) or not _same_range(rows, unknowns_of(f)):
+                            ok_r = False
+                            why_r = (f"for {_case_text(f)} the mass matrix `{src(mexp)[:60]}` holds the rows {_fmt(rows)} and columns {_fmt(cols)} "
+                                     f"and is applied to the coefficients {_fmt(vr)} of rho; the rows must be the unknowns "
+                                     f"{_fmt(unknowns_of(f))} and the columns the coefficients they multiply")
+                            break
+                except KeyError as e_:
+                    ok_r, why_r = None, str(e_).strip('"\'')
         zl = [n for n in ast.walk(sm) if isinstance(n, ast.For) and any(st is x for x in ast.walk(n))]
         jn = None
         if zl and isinstance(zl[0].target, ast.Tuple) and zl[0].target.elts and isinstance(zl[0].target.elts[0], ast.Name):
@@ -2248,8 +3164,8 @@ def mode_solve(chk):
         ok = bool(ok_t and ok_m and ok_r and ok_i)
         if not ok:
             rs = src(rhs)
-            wrong_idx = sorted({src(n) for e_ in (tgt, rhs) for n in ast.walk(e_) if isinstance(n, ast.Subscript)
-                                and src(n.value) in tables_ and src(n.slice) != gi})
+            wrong_idx = sorted({src(n) for e_ in (tgt, rhs, mat) for n in ast.walk(e_) if isinstance(n, ast.Subscript)
+                                and src(n.value) in tables_ and src(n.slice) not in ({gi} | gnames)})
             if wrong_idx:
                 bad = f"per-mode tables are looked up with {wrong_idx} instead of the global mode index `{gi}`"
             elif "self._spline.coeffs" in rs and "_massMatrix" not in rs and isinstance(rhs, (ast.Attribute, ast.Subscript)):
@@ -2262,31 +3178,45 @@ def mode_solve(chk):
             elif ok_m and ok_i:
                 und = [w_ for v_, w_ in ((ok_t, why_t), (ok_r, why_r)) if v_ is None]
     if not ok and not bad and und:
-        chk.ob("F4-mode-solve", solves[0] if len(solves) == 1 else sm, "_solveMode: coeffs[range_I] = S^-1 M[range_I,:] c(rho)", None,
+        chk.ob("F4-mode-solve", solves[0] if len(solves) == 1 else sm, f"{disc}: coeffs[range_I] = S^-1 M[range_I,:] c(rho)", None,
                "not followed: " + und[0], file=U.POISSON, func=q)
     else:
-        chk.pat("F4-mode-solve", solves[0] if len(solves) == 1 else sm, "_solveMode: coeffs[range_I] = S^-1 M[range_I,:] c(rho)", ok,
+        chk.pat("F4-mode-solve", solves[0] if len(solves) == 1 else sm, f"{disc}: coeffs[range_I] = S^-1 M[range_I,:] c(rho)", ok,
                 "right-hand side is the mass matrix (rows of the mode's unknowns, every column) applied to the spline coefficients of rho; "
                 "the solution fills the mode's unknowns, Dirichlet entries keep their zero", bad, file=U.POISSON, func=q)
-    func_solve(chk)
-    for name in ("_solveMode", "_solveModeFunc"):
-        evaluation(chk, name)
+    fcls = next((c_ for c_, m_, cl in eps if m_ == "solveEquationForFunction"), CLS)
+    if funcs != disc or solve_view(chk, funcs, fcls, "solveEquationForFunction") is not sm:
+        func_solve(chk, funcs, fcls)
+    else:
+        chk.ob("F4-mode-solve", sm, f"{funcs}: coeffs[range_I] = S^-1 b[range_I]", None,
+               "the per-mode solves for a discrete right-hand side and for a function are one method: its branches are not followed",
+               file=U.POISSON, func=q)
+    seen_v = set()
+    for c_, m_, cl in eps:
+        v_ = solve_view(chk, cl, c_, m_)
+        if id(v_) not in seen_v:
+            seen_v.add(id(v_))
+            evaluation(chk, cl, v_)
 
 
-def func_solve(chk):
+def func_solve(chk, name="_solveModeFunc", fcls=CLS):
     """_solveModeFunc: the projected right-hand side is taken at the unknowns of the mode and the solution fills the same entries"""
-    q = f"{CLS}._solveModeFunc"
-    sm = flat_view(chk, U.POISSON, CLS, "_solveModeFunc")
+    q = f"{CLS}.{name}"
+    sm = solve_view(chk, name, fcls, "solveEquationForFunction")
     env = env_of(chk, sm)
     R = ranges_of(chk)
-    solves = [n for n in ast.walk(sm) if isinstance(n, ast.Assign) and isinstance(n.value, ast.Call)
-              and src(n.value.func).split(".")[-1] == "spsolve" and len(n.value.args) == 2]
+    _, _, opn_, _ = solve_roles(chk, name)
+    sub_ = callee_binding(chk, name, exclude={opn_})
+    sstores = solve_stores(sm)
+    solves = [x[0] for x in sstores]
     if len(solves) != 1:
-        chk.ob("F4-mode-solve", sm, "_solveModeFunc: coeffs[range_I] = S^-1 b[range_I]", None, "the call of spsolve was not found", file=U.POISSON, func=q)
+        chk.ob("F4-mode-solve", sm, f"{name}: coeffs[range_I] = S^-1 b[range_I]", None, "the call of spsolve was not found", file=U.POISSON, func=q)
         return
-    st = solves[0]
+    st, tnode, scall = sstores[0]
     parts = []
-    for what_, e in (("the solution is written to", env.x(st.targets[0], use=st)), ("the right-hand side is taken at", env.x(st.value.args[1], use=st))):
+    for what_, e in (("the solution is written to", env.x(tnode, use=st)), ("the right-hand side is taken at", env.x(scall.args[1], use=st))):
+        if sub_:
+            e = _Sub({}, sub_).visit(e)
         if isinstance(e, ast.Subscript) and isinstance(e.slice, ast.Slice) and e.slice.lower is None and e.slice.upper is None \
                 and e.slice.step is None and isinstance(e.value, ast.Subscript):
             e = e.value
@@ -2305,15 +3235,15 @@ def func_solve(chk):
         parts.append((v_, why_))
     bad_ = [w for v, w in parts if v is False]
     und_ = [w for v, w in parts if v is None]
-    chk.ob("F4-mode-solve", st, "_solveModeFunc: coeffs[range_I] = S^-1 b[range_I]", False if bad_ else (None if und_ else True),
+    chk.ob("F4-mode-solve", st, f"{name}: coeffs[range_I] = S^-1 b[range_I]", False if bad_ else (None if und_ else True),
            bad_[0] if bad_ else ("not followed: " + und_[0] if und_ else
                                  "the right-hand side is restricted to the unknowns of the mode and the solution fills the same entries of the "
                                  "coefficient vector"), file=U.POISSON, func=q)
 
 
-def evaluation(chk, name):
+def evaluation(chk, name, view=None):
     q = f"{CLS}.{name}"
-    f_ = flat_view(chk, U.POISSON, CLS, name)
+    f_ = view if view is not None else flat_view(chk, U.POISSON, CLS, name)
     env = env_of(chk, f_)
     # the store of the computed solution (a shortcut that writes a constant line is judged by F4-output-complete)
     stores = [n for n in _output_stores(f_, env) if not _is_number(env.x(n.value, use=n))]
@@ -2474,9 +3404,14 @@ def output_complete(chk):
     """every (mode, z) line of the output is written with the solution for that line of rho.  Every path through one iteration of
     the z loop is followed: it must store into the line; a path that stores a zero line instead of solving is the solution only
     when its condition says that the right-hand side line is exactly zero (a linear problem with homogeneous boundary values)."""
-    for name in ("_solveMode", "_solveModeFunc"):
+    eps = entry_points(chk)
+    seen_v = set()
+    for c_, m_, name in eps:
+        f_ = solve_view(chk, name, c_, m_)
+        if id(f_) in seen_v:
+            continue
+        seen_v.add(id(f_))
         q_ = f"{CLS}.{name}"
-        f_ = flat_view(chk, U.POISSON, CLS, name)
         env = env_of(chk, f_)
         stores = _output_stores(f_, env)
         main = [n for n in stores if not _is_number(env.x(n.value, use=n))]
@@ -2577,7 +3512,7 @@ def mode_power(chk):
     """the coefficient of the k2 block in every per-mode operator is -(m_I)^2, counting the squaring done once in the constructor"""
     mt = mode_tables(chk)
     nsites = 0
-    for cls, m, _ in ENTRIES:
+    for cls, m, _ in entry_points(chk):
         fn = flat_view(chk, U.POISSON, cls, m)
         env = env_of(chk, fn)
         sites = []
@@ -2781,8 +3716,12 @@ def run(chk):
         "with the weak form of A phi'' + B phi' + C phi - m^2 D phi = E rho in cylindrical measure (integration by parts of the A "
         "term for constant A, derivative on the trial/column function on both the upper and the mirrored diagonals); number of "
         "Gauss-Legendre points against the requested degree (2n-1 >= degree for all degrees); cell mapping of the points; operator "
-        "composition; mode-number def-use order; Dirichlet reset inside every per-mode loop; per-mode operator with the global "
-        "mode index (helper methods written back in place); right-hand side and evaluation; pure-Neumann refusal; plus the "
+        "composition; mode-number def-use order (which power of m every table holds from its creation on); the shared coefficient "
+        "buffer followed path by path through the mode loop and the per-mode solve as one unit (boundary entries reset for every "
+        "mode, unknowns stored for every line before they are evaluated, no memoised per-mode value kept in the solver); per-mode "
+        "operator composed from what the caller passes and what the per-mode solve does to it, with the global mode index (helper "
+        "methods written back in place, merged siblings specialised by their bound flags); right-hand side and evaluation; "
+        "pure-Neumann refusal; plus the "
         "index-space typing of the per-mode tables (engine C). The sparse solve and evaluation accuracy are not decided.")
     chk.in_file(U.POISSON)
     assembly(chk)
